@@ -407,4 +407,57 @@ def subspanExtent (ext : Option Nat) (o : Nat) (c : Option Nat) : Option Nat :=
 def Span.at? {α : Type} (s : Span) (mem : List α) (i : Nat) : Option α :=
   if i < s.size then mem[s.off + i]? else none
 
+/-! ### span.hh: the sub-view functions as regenerated from the source -/
+
+/-- `Std::dynamic_extent` = `std::size_t(-1)` -/
+def dynExt : Nat := 18446744073709551615
+
+/-- a count / static extent argument as the C++ code sees it: `none` is `dynamic_extent` -/
+def optNat (c : Option Nat) : Nat := c.getD dynExt
+
+def natOpt (n : Nat) : Option Nat := if n = dynExt then none else some n
+
+/-- the six sub-view member functions (run-time and template forms are separate functions in span.hh) -/
+inductive SpanOpG where
+  | first (count : Nat) | last (count : Nat) | sub (offset : Nat) (count : Option Nat)
+  | tfirst (count : Nat) | tlast (count : Nat) | tsub (offset : Nat) (count : Option Nat)
+  deriving Repr
+
+/-- the abstract operation a member function implements -/
+def SpanOpG.erase : SpanOpG → SpanOp
+  | .first c => .first c
+  | .last c => .last c
+  | .sub o c => .sub o c
+  | .tfirst c => .first c
+  | .tlast c => .last c
+  | .tsub o c => .sub o c
+
+/-- `assert(pre); return span<…>{data() + off, size}` -/
+def mkSub (s : Span) (pre : Bool) (off size : Nat) : Option Span :=
+  if pre then some ⟨s.off + off, size⟩ else none
+
+/-- one sub-view call on a span with static extent `ext` (`none` = dynamic), assembled from the regenerated pieces
+    (`Gen.span_*_pre/_off/_size`, `Gen.span_subspan_extent`): the new static extent and the new span -/
+def Span.applyG (ext : Option Nat) (s : Span) : SpanOpG → Option (Option Nat × Span)
+  | .first c => (mkSub s (span_first_pre dynExt (optNat ext) s.size 0 c) (span_first_off dynExt (optNat ext) s.size 0 c)
+      (span_first_size dynExt (optNat ext) s.size 0 c)).map fun t => (none, t)
+  | .last c => (mkSub s (span_last_pre dynExt (optNat ext) s.size 0 c) (span_last_off dynExt (optNat ext) s.size 0 c)
+      (span_last_size dynExt (optNat ext) s.size 0 c)).map fun t => (none, t)
+  | .sub o c => (mkSub s (span_sub_pre dynExt (optNat ext) s.size o (optNat c)) (span_sub_off dynExt (optNat ext) s.size o (optNat c))
+      (span_sub_size dynExt (optNat ext) s.size o (optNat c))).map fun t => (none, t)
+  | .tfirst c => (mkSub s (span_tfirst_pre dynExt (optNat ext) s.size 0 c) (span_tfirst_off dynExt (optNat ext) s.size 0 c)
+      (span_tfirst_size dynExt (optNat ext) s.size 0 c)).map fun t => (some c, t)
+  | .tlast c => (mkSub s (span_tlast_pre dynExt (optNat ext) s.size 0 c) (span_tlast_off dynExt (optNat ext) s.size 0 c)
+      (span_tlast_size dynExt (optNat ext) s.size 0 c)).map fun t => (some c, t)
+  | .tsub o c => (mkSub s (span_tsub_pre dynExt (optNat ext) s.size o (optNat c)) (span_tsub_off dynExt (optNat ext) s.size o (optNat c))
+      (span_tsub_size dynExt (optNat ext) s.size o (optNat c))).map fun t =>
+        (natOpt (span_subspan_extent dynExt (optNat ext) o (optNat c)), t)
+
+/-- a history of sub-view calls -/
+def Span.runG (ext : Option Nat) (s : Span) : List SpanOpG → Option (Option Nat × Span)
+  | [] => some (ext, s)
+  | op :: ops => match s.applyG ext op with
+    | some (e, t) => t.runG e ops
+    | none => none
+
 end DV.C14
